@@ -231,7 +231,8 @@ class FullOps(TorchCalls):
                 if "R" in t.axes or t.note.startswith("block-of-R") or "K" in t.axes:
                     self.clear("p", "fill_diagonal_ pairs position k of one axis with row k of the other: which entries are hit depends on the row order", node)
                 return t.but(p=False, poly=None)
-            return t.but(poly=None)
+            vtxt = ast.unparse(node.args[0]) if isinstance(node, ast.Call) and node.args else ""
+            return self.tag(t.but(poly=None), "fill_diagonal", node, value_text=vtxt.replace('"', "'"), in_origin=sorted(t.origin), axes=list(t.axes))
         if name == "diag":
             return self.diag(t, node)
         if name in ("fill_", "zero_", "add_", "sub_", "mul_", "div_", "copy_", "clamp_", "abs_", "neg_", "sqrt_", "normal_",
@@ -381,7 +382,8 @@ class FullOps(TorchCalls):
             tag = n.size_of if n is not None and len(args) == 1 else None
             if tag == "R":
                 self.clear("p", "arange along the row axis is position dependent", node)
-            return TV(kind=kind, axes=(tag or "K",), p=tag != "R", q=tag != "C", s=tag != "C", z=tag != "C", deg=F0, dtype="Int", idx_of=tag)
+            return TV(kind=kind, axes=(tag or "K",), p=tag != "R", q=tag != "C", s=tag != "C", z=tag != "C", deg=F0, dtype="Int", idx_of=tag,
+                      note="arange-full" if len(args) == 1 else "")
         if fn in ("tensor", "as_tensor", "from_numpy", "array", "asarray", "ascontiguousarray"):
             if a0 is None:
                 src = args[0] if args else None
@@ -472,6 +474,39 @@ class FullOps(TorchCalls):
                 fl = self.lose_axis_flags(a0, "C", "ext", node)
             out = a0.but(deg=F0 if a0.deg in (F0, Z) else None, alias=False, poly=None, **fl)
             return self.tag(out, fn, node, axis=a0.axes[d] if d is not None else "?", in_origin=sorted(a0.origin), in_axes=list(a0.axes))
+        if fn == "isin" and len(args) >= 2:
+            # isin(arange(m), idx): indicator vector of the positions listed in idx (== one_hot(idx, m).sum(0) for distinct idx)
+            e, idx = a0, tv_of(args[1])
+            if idx is not None and e.idx_of is not None and idx.idx_of == e.idx_of:
+                out = TV(kind=kind, axes=e.axes, p=idx.p, q=idx.q, s=idx.s, z=idx.z, deg=F0, dtype="Bool", origin=e.origin | idx.origin, gen=idx.gen, rng=idx.rng)
+                return self.tag(out, "isin", node, in_idx_of=idx.idx_of, in_origin=sorted(idx.origin), size_poly=self.size_tv(e, 0).poly if e.axes else None, range_full=bool(e.note == "arange-full"))
+            return self.unk("isin of values that are not indices of one axis", node)
+        if fn == "take_along_dim" and len(args) >= 2:
+            idx = tv_of(args[1])
+            dim = kwargs.get("dim", args[2] if len(args) > 2 else None)
+            d = self.axis_of(a0, dim, node) if dim is not None else None
+            if idx is not None and d is not None and idx.idx_of == a0.axes[d] and len(idx.axes) == len(a0.axes):
+                # gathering along an axis with indices of that axis: the result has the index tensor's axes (e.g. the trimmed window of an argsort)
+                fl = dict(p=a0.p and idx.p, q=a0.q and idx.q, s=a0.s and idx.s, z=a0.z and idx.z)
+                out = a0.but(axes=idx.axes, alias=False, span=False, poly=None, origin=a0.origin | idx.origin, gen=a0.gen | idx.gen, rng=a0.rng or idx.rng, **fl)
+                return self.tag(out, "take_along_dim", node, axis=a0.axes[d], axis_pos=d, in_origin=sorted(a0.origin), idx_origin=sorted(idx.origin), raw=a0.origin == frozenset(["matrix"]))
+            return self.unk("take_along_dim with indices of another axis", node)
+        if fn == "multi_dot":
+            lst = args[0]
+            items = list(lst.items) if isinstance(lst, ListV) and lst.items is not None else None
+            if not items:
+                return self.unk("multi_dot of an abstract list", node)
+            out = tv_of(items[0])
+            for x in items[1:]:
+                b = tv_of(x)
+                if out is None or b is None:
+                    return self.unk("multi_dot of non-tensors", node)
+                out = self.matmul(out, b, node)
+            return out
+        if fn == "square":
+            return self.elementwise(a0, a0, "mul", node)
+        if fn == "atleast_1d":
+            return a0 if a0.axes else a0.but(axes=("1",))
         if fn == "one_hot":
             n = tv_of(kwargs.get("num_classes", args[1] if len(args) > 1 else None))
             tag = n.size_of if n is not None and n.size_of else "K"
@@ -520,6 +555,8 @@ class FullOps(TorchCalls):
                 pos = {"sort": 1, "argsort": 1, "topk": 2, "kthvalue": 2}.get(fn)
                 if pos is not None and len(args) > pos:
                     dim = args[pos]
+            if fn == "msort":
+                dim = Const(0)  # msort sorts along the first dimension
             extra = {}
             if fn == "topk":
                 extra = dict(k_poly=self.poly_of(kwargs.get("k", args[1] if len(args) > 1 else None)),
